@@ -48,7 +48,8 @@ theorem putConstantValue_spec {p p' : Pool} {v : ConstantValue} {i : Nat} (hg : 
 def SFieldAttr.frame (a : SFieldAttr) : Bytes := attrFrame a.raw.1 a.raw.2
 
 /-- fields: framing, legality, effect on the facts -/
-def ownField : Own SFieldAttr FieldFacts := ⟨SFieldAttr.frame, fun rp a => a.Legal rp, SFieldAttr.apply⟩
+def ownField : Own SFieldAttr FieldFacts :=
+  ⟨SFieldAttr.frame, fun q a => Sound q (fun rp => a.Legal rp), fun hl h => h.mono hl, SFieldAttr.apply⟩
 
 /-- conditions on a field of the proved fragment that do not depend on the pool: flags within the mask, a valid name,
 well-typed annotations within the reader's nesting limit, unknown attributes not named like a known one -/
